@@ -1,9 +1,10 @@
 (** C13 -- model of layout21raw/src/geom.rs [ShapeTrait::contains] for Rect, Polygon, Path
     (and of layout21raw/src/bbox.rs [Vec<Point>::bbox], [BoundBox::contains]).
     Transcribed function by function. [Int = isize], taken to be 64 bits; arithmetic is done
-    in Z and every intermediate that Rust computes in isize is range-checked: leaving the
-    range yields [Ovf] (a panic in builds with overflow checks -- the harness is one -- and a
-    silent wrap-around otherwise; the model does not follow the wrapped computation).
+    in Z and every intermediate that Rust computes in isize (in i128 in the repaired
+    Polygon::contains) is range-checked: leaving the range yields [Ovf] (a panic in builds
+    with overflow checks -- the harness is one -- and a silent wrap-around otherwise; the
+    model does not follow the wrapped computation).
     [Panic] is an unconditional panic (index out of range, unwrap, unimplemented!).
     No proofs in this file. *)
 From Coq Require Import ZArith Bool List.
@@ -16,7 +17,7 @@ Definition Y (p : point) : Z := snd p.
 
 Inductive res : Type :=
 | Ret (b : bool)   (* normal return *)
-| Ovf              (* an isize operation left the 64-bit range *)
+| Ovf              (* an integer operation left the range of its type *)
 | Panic.           (* unconditional panic *)
 
 Definition int_min : Z := - 2 ^ 63.
